@@ -8,7 +8,7 @@ NOCPRF = {"kind": "absent", "eval": "absent", "byCred": [], "byCredGiven": False
 DOMS = [("o.r1w", "r1", "r1", "ok"), ("o.r1p", "r1", "r1", "ok"), ("o.and.r1", "absent", "r1", "ok"), ("o.r2", "absent", "r2", "ok"),
         ("o.evil", "r1", "r1", "OriginRpMissmatch"), ("o.http", "r1", "r1", "UnprotectedOrigin"), ("o.r1w", "com", "com", "InvalidRpId"),
         ("o.local", "absent", "localhost", "InsecureLocalhostNotAllowed"), ("o.and.evil", "r1", "r1", "OriginRpMissmatch"),
-        ("o.r1", "absent", "r1", "ok"), ("o.and.r1w", "r1", "r1", "ok"), ("o.idn", "absent", "r3", "ok"), ("o.idnu", "r3", "r3", "ok")]
+        ("o.r1", "absent", "r1", "ok"), ("o.and.r1w", "r1", "r1", "ok"), ("o.idn", "absent", "r3", "ok"), ("o.idnu", "r3", "r3", "ok"), ("o.q1", "absent", "rq1", "ok"), ("o.q2", "rq2", "rq2", "ok")]
 STATUSES = [1, 2, 21, 40, 46, 39, 127, 242, 224]
 
 
@@ -49,7 +49,7 @@ def base_req(rnd, pool):
     ex = ids(rnd, pool)
     al = ids(rnd, pool)
     return {"rp": rnd.choice(["r1", "r1", "r2"]), "user": rnd.choice(["u1", "u2", "u3"]),
-            "algs": [rnd.choice(["ES256", "ES256", "RS256", "EdDSA", "unknown", "u:RS256"]) for _ in range(rnd.choice([0, 1, 1, 2, 3]))],
+            "algs": [rnd.choice(["ES256", "ES256", "RS256", "EdDSA", "unknown", "u:RS256", "HMAC", "zero"]) for _ in range(rnd.choice([0, 1, 1, 2, 3]))],
             "exclude": ex, "excludeGiven": bool(ex) or rnd.random() < 0.3, "allow": al, "allowGiven": bool(al) or rnd.random() < 0.3,
             "rk": rnd.random() < 0.4, "up": rnd.random() < 0.9, "uv": rnd.random() < 0.5, "pinAuth": rnd.random() < 0.04,
             "hs": rnd.choice(["absent", "absent", "true", "false"]), "prf": dict(NOPRF), "cdh": rnd.choice(["h1"] * 6 + ["h0", "h3", "h20", "h64"]),
@@ -67,6 +67,7 @@ def behaviour(rnd):
            "disc": "forced" if slot or memory else rnd.choice(["full", "full", "nondisc", "forced"]),
            "emptyAsErr": False if slot or memory else rnd.random() < 0.5,
            "tr": rnd.choice(["default", "default", "empty", "usb"]),
+           "order": "oldest" if slot or memory else rnd.choice(["oldest", "newest"]),
            "wrap": "none" if slot or memory else rnd.choice(["none", "none", "mutex", "rwlock", "arcmutex", "arcrwlock"])}
     store = []
     for cid in ["c1", "c2", "c3"][: (rnd.choice([0, 1]) if slot else rnd.choice([0, 1, 2, 3]))]:
@@ -119,7 +120,7 @@ def behaviour(rnd):
             r.update({"rp": rp, "origin": o, "rpid": rpid, "dom": dom, "chal": rnd.choice(["c0", "c1", "c32", "c1024"]),
                       "authSel": rnd.random() < 0.7, "residentKey": rnd.choice(["absent", "discouraged", "preferred", "required"]),
                       "requireRk": rnd.random() < 0.5, "uvreq": rnd.choice(["required", "preferred", "discouraged"]),
-                      "credProps": rnd.choice(["absent", "false", "true"]), "cdmode": rnd.choice(["default", "extra", "hash"]),
+                      "credProps": rnd.choice(["absent", "false", "true"]), "cdmode": rnd.choice(["default", "extra", "extra0", "hash"]),
                       "cprf": cp, "pinAuth": False, "hs": "absent", "up": True,
                       "att": rnd.choice(["absent", "absent", "none", "indirect", "direct", "enterprise"]),
                       "prf": {"given": kind != "absent", "eval": cp["eval"], "byCred": by, "byCredGiven": given}})
@@ -129,10 +130,11 @@ def behaviour(rnd):
             r = base_req(random.Random(1), pool)
             r.update({"rp": rnd.choice(["a1", "a2"]), "handle": rnd.choice(["k16", "k32", "k0"]),
                       "counter": rnd.choice([{"hi": 0, "lo": 0}, {"hi": 0, "lo": 9}, {"hi": 65535, "lo": 65535}]),
-                      "presence": rnd.choice([[], ["UP"], ["UP", "UV"], ["UP", "BE", "BS"], ["UV", "BE", "AT"]])})
+                      "presence": rnd.choice([[], ["UP"], ["UP", "UV"], ["UP", "BE", "BS"], ["UV", "BE", "AT"]]),
+                      "ctl": rnd.choice(["enforce", "check", "dont"])})
             e["uv"] = {"kind": "ok", "pres": True, "verif": True, "err": 0}
             if op == "reg":
-                r["counter"], r["presence"] = {"hi": 0, "lo": 0}, []
+                r["counter"], r["presence"], r["ctl"] = {"hi": 0, "lo": 0}, [], "enforce"
             cers.append({"api": "u2f", "op": op, "req": r, "env": e})
     return {"cfg": cfg, "store": store, "cers": cers}
 
